@@ -271,13 +271,40 @@ def from_hidc(node):
     raise ValueError(f'unexpected hidc node {type(node).__name__}')
 
 
-def hidc_parse_expr(text):
-    """parse with the real hidc parser in a you-context (so ?? is legal)"""
+def hidc_parse_expr(text, ctx='you'):
+    """parse with the real hidc parser in a you-context (so ?? is legal); ctx: 'you', 'you_loop' (inside a loop body of a
+    you-function), 'func' / 'func_loop' (ordinary function: no ??)"""
     from hidc.lexer import SourceCode
     from hidc.parser import parse
     from hidc.parser.grammar import ps_expr, BlockContext
-    tree = parse(SourceCode.from_string(text), rule=ps_expr(BlockContext.YOU))
+    c = {'you': BlockContext.YOU, 'you_loop': BlockContext.YOU | BlockContext.LOOP, 'func': BlockContext.FUNC,
+         'func_loop': BlockContext.FUNC | BlockContext.LOOP}[ctx]
+    tree = parse(SourceCode.from_string(text), rule=ps_expr(c))
     if tree is None:
         from hidc.errors import ParserError
         raise ParserError('no expression', ())
     return from_hidc(tree)
+
+
+# statements of every kind, parsed through the real parser between expression batches: whatever parsing a statement
+# leaves behind in the parser (tables, flags, caches) must not change how later expressions group
+PRELUDE = """
+int g = 1;
+int f(int a, int b) { return a + b * 2; }
+empty !d(int k) { preempt { return; } !truth_is_defeat(k == 1); }
+empty @is_you(int n) {
+    int i = 0; byte b = 'x'; int[] q = [1, 2, 3]; bool t = n > 1 and not (n == 3) or n < -1;
+    i += 1; i -= 2; i *= 3; i /= 4; i %= 5; q[1] += i; q[2] -= 1; q[0] *= 2; q[0] /= 1; q[0] %= 7; b += 1; g += n;
+    for (int k = 0; k < 3; k += 1) { i += k; if (k == 1) { continue; } while (i > 100) { i -= 100; break; } }
+    i = (n ?? 2) + 1; i = f(n, 2) ?? 0;
+    try { !d(n); } undo { i = f(n, 2); }
+    try { !d(i); } stop { i -= 1; }
+    writeln((i is byte) + q.length * q[0] - -n);
+}
+"""
+
+
+def parse_prelude():
+    from hidc.lexer import SourceCode
+    from hidc.parser import parse
+    parse(SourceCode.from_string(PRELUDE))
